@@ -111,15 +111,21 @@ class InterningHashlib:
         return _InterningSha(self, data)
 
 
+def _as_text(p):
+    if isinstance(p, str):
+        return p
+    return p.decode("latin-1")
+
+
 def _parts_equal(a, b):
-    if len(a) != len(b):
-        return False
-    for x, y in zip(a, b):
-        if type(x) is not type(y) and not (isinstance(x, (bytes, str)) and isinstance(y, (bytes, str))):
-            return False
-        if not (x == y):
-            return False
-    return True
+    """update(x); update(y) == update(x + y): compare the concatenations"""
+    ta = ""
+    for p in a:
+        ta = ta + _as_text(p)
+    tb = ""
+    for p in b:
+        tb = tb + _as_text(p)
+    return ta == tb
 
 
 class _InterningSha:
